@@ -4,6 +4,7 @@ CONSTANTS
   MaxDepth = 2
   MaxStr = 0
   Emit = TRUE
+  MaxDeep = 0
   Part = "maps"
 INVARIANT Inv
 CHECK_DEADLOCK FALSE
